@@ -47,7 +47,7 @@ class Arr(list):
         raise ValueError('the truth value of an Arr is ambiguous')
 '''
 
-KINDS = ['assign', 'print', 'print2', 'expr', 'printexpr', 'none', 'multi', 'compound', 'def', 'semicolon', 'expr_wild', 'expr_arr', 'expr_words']
+KINDS = ['assign', 'print', 'print2', 'expr', 'printexpr', 'none', 'multi', 'compound', 'def', 'semicolon', 'expr_wild', 'expr_arr', 'expr_words', 'printexpr_semi', 'none_semi']
 # the richer statement grammar of the C01 program generator (C01, C18, C19, C20)
 MORE_KINDS = ['await_expr', 'unawaited_coro', 'esc_literal', 'annotated_def', 'augassign', 'for', 'while', 'with', 'try', 'decodef', 'class', 'literal_comment', 'triple', 'triple_unprefixed', 'triple_blank', 'triple_unprefixed_blank', 'bracket_blank', 'triple_trailing_ws', 'triple_late_unprefixed',
               'import', 'comment', 'async_await', 'async_for', 'async_with']
@@ -100,6 +100,16 @@ class Stmt:
             self.val = str(k + 100)
         elif kind == 'none':
             self.lines = ['tn(%d)' % k]
+            self.is_expr = True
+        elif kind == 'printexpr_semi':
+            # a semicolon that separates nothing: inside a trailing comment of an expression that prints and has a value
+            self.lines = ['pr(%d)  # prints; then returns' % k]
+            self.is_expr = True
+            self.out = 'p%da\n' % k
+            self.val = str(k + 100)
+        elif kind == 'none_semi':
+            # ... and inside a string literal of an expression whose value is None
+            self.lines = ["tn(%d) or {}.get('a;b')" % k]
             self.is_expr = True
         elif kind == 'multi':
             self.lines = ['w%d = [t(%d),' % (k, k), '      0]']
